@@ -120,3 +120,34 @@ cross_td!(c18_cross_option_some, Option<u8>, [k::<0x18>, a0]);
 cross_td!(c18_cross_option_none, Option<u8>, [k::<0xf6>]);
 cross_td!(c18_cross_array_def, [u8; 2], [k::<0x82>, k::<0x18>, a0, k::<0x18>, a1]);
 cross_td!(c18_cross_unit, (), [k::<0x80>]);
+
+#[cfg(feature = "alloc")]
+pub mod with_alloc {
+    use super::*;
+    use alloc::vec::Vec;
+
+    /// NOT REGISTERED: does not finish in 15 min (serde's Vec visitor over an indefinite array whose
+    /// elements are indefinite arrays); kept for reference.
+    /// Nested re-framing: a sequence of fixed arrays, everything indefinite
+    /// (`9f 9f a b ff 9f c d ff ff`): native and serde decoding never disagree on the value.
+    #[kani::proof]
+    #[kani::unwind(8)]
+    #[kani::stub(minicbor::decode::Decoder::skip, crate::util::skip_r3_small)]
+    pub fn c18_alloc_vec_of_arrays_indefinite() {
+        let a: [u8; 4] = kani::any();
+        kani::assume(a[0] < 24 && a[1] < 24 && a[2] < 24 && a[3] < 24);
+        let inp = [0x9f, 0x9f, a[0] & 0x17, a[1] & 0x17, 0xff, 0x9f, a[2] & 0x17, a[3] & 0x17, 0xff, 0xff];
+        let mut d = Decoder::new(&inp[..]);
+        let x = d.decode::<Vec<[u8; 2]>>();
+        let mut s = Deserializer::new(&inp[..]);
+        let y = <Vec<[u8; 2]>>::deserialize(&mut s);
+        if let (Ok(x), Ok(y)) = (&x, &y) {
+            assert!(x.len() == y.len(), "native and serde decoding disagree on the number of elements");
+            let mut i = 0;
+            while i < 2 { if i < x.len() { assert!(x[i] == y[i], "native and serde decoding disagree on the value"); } i += 1; }
+        }
+        kani::cover!(x.is_ok());
+        core::mem::forget(x);
+        core::mem::forget(y);
+    }
+}
